@@ -68,7 +68,7 @@ theorem events_shape (cfg : Cfg) (w : World) (req : Req) :
     · rw [h]
       refine Or.inr (Or.inr (Or.inr ?_))
       obtain ⟨_, _, _, tail, h4, h5⟩ := produceLoop_spec cfg (cur.st.prog.drop cur.st.pos) cur.st.pos
-        (some (stripFramework req.md)) 0 0 req.env.ticks
+        (some (stripFramework req.md)) 0 0 req.env.ticks req.env.body0 req.env.sizes
       refine ⟨cur.st.pos, tail, ?_, h5⟩
       unfold producerContinuation
       simp only []
@@ -263,7 +263,7 @@ theorem failed_no_cursor (cfg : Cfg) (w : World) (req : Req)
   · rcases h with ⟨_, h⟩ | ⟨_, _, h⟩ | ⟨_, _, _, h⟩
     · rw [h]; exact ⟨(by intro b hb; cases hb), hm⟩
     · obtain ⟨l1, l2, l3, _⟩ := produceLoop_spec cfg (cur.st.prog.drop cur.st.pos) cur.st.pos
-        (some (stripFramework req.md)) 0 0 req.env.ticks
+        (some (stripFramework req.md)) 0 0 req.env.ticks req.env.body0 req.env.sizes
       rw [h] at hfail ⊢
       unfold producerContinuation at hfail ⊢
       simp only [] at hfail ⊢
